@@ -9,6 +9,7 @@ Frame / dependency clauses on the real reset / iteration / step / learn of the a
 from __future__ import annotations
 
 import ast
+import json
 import os
 
 import equinox as eqx
@@ -58,10 +59,8 @@ def _dotted(node):
     return None
 
 
-def unit_frame_ast(S):
-    """No function in lerax writes module-level state (global statements, or mutation of module-level mutable containers)."""
-    fn = "lerax/** (AST frame check)"
-    S.under_contract(fn)
+def python_state_offenders():
+    """AST scan of the lerax sources for process-level state: returns (offenders, number of files, number of functions)"""
     MUT = {"append", "extend", "insert", "pop", "remove", "clear", "update", "setdefault", "add", "discard", "popitem", "sort", "reverse", "__setitem__"}
     offenders, nfiles, nfuncs = [], 0, 0
     for root, _, files in os.walk(PKG):
@@ -145,9 +144,46 @@ def unit_frame_ast(S):
                                 offenders.append(f"{path}:{n.lineno} writes module-level {t.value.id}[...]")
                     if isinstance(n, ast.Call) and isinstance(n.func, ast.Attribute) and isinstance(n.func.value, ast.Name) and n.func.value.id in modlevel and n.func.attr in MUT:
                         offenders.append(f"{path}:{n.lineno} mutates module-level {n.func.value.id}.{n.func.attr}()")
+            # import-time changes of the process-wide JAX configuration (module level, outside any function)
+            for n in ast.walk(tree):
+                if isinstance(n, ast.Call) and isinstance(n.func, ast.Attribute) and n.func.attr == "update" and _dotted(n.func.value) in ("jax.config", "config", "jax._src.config.config"):
+                    msg = f"{path}:{n.lineno} changes the process-wide JAX configuration ({ast.unparse(n)[:80]})"
+                    if msg not in offenders:
+                        offenders.append(msg)
+    return offenders, nfiles, nfuncs
+
+
+def native_config_replay(model):
+    """R1: two fresh interpreters - one importing only jax, one importing jax and then every lerax sub-package - print the JAX configuration values that change numerics or random streams;
+    importing lerax must leave them as they are."""
+    import subprocess
+    import sys
+    flags = ["jax_enable_x64", "jax_default_prng_impl", "jax_threefry_partitionable", "jax_default_matmul_precision", "jax_numpy_dtype_promotion", "jax_numpy_rank_promotion", "jax_disable_jit"]
+    prog = "import jax, json\n{imp}\nprint(json.dumps({{f: str(getattr(jax.config, f, None)) for f in %r}}))" % (flags,)
+    imp = "import lerax, lerax.algorithm, lerax.env, lerax.policy, lerax.distribution, lerax.space, lerax.buffer, lerax.wrapper, lerax.callback, lerax.benchmark"
+    env = dict(os.environ, JAX_PLATFORMS="cpu")
+    outs = []
+    for code in (prog.format(imp=""), prog.format(imp=imp)):
+        r = subprocess.run([sys.executable, "-c", code], capture_output=True, text=True, env=env, timeout=600)
+        line = [l for l in r.stdout.splitlines() if l.startswith("{")]
+        if not line:
+            return dict(reproduced=False, note="could not read the configuration from a fresh interpreter: " + r.stderr[-200:])
+        outs.append(json.loads(line[-1]))
+    diff = {k_: [outs[0][k_], outs[1][k_]] for k_ in flags if outs[0][k_] != outs[1][k_]}
+    if diff:
+        return dict(reproduced=True, route="R1 (fresh interpreters: `import jax` vs `import jax` + every lerax sub-package)", inputs=dict(flags=flags), observed=dict(changed_by_importing_lerax=diff))
+    return dict(reproduced=False, note="importing lerax leaves the JAX configuration untouched")
+
+
+def unit_frame_ast(S):
+    """No function in lerax writes module-level state (global statements, or mutation of module-level mutable containers)."""
+    fn = "lerax/** (AST frame check)"
+    S.under_contract(fn)
+    offenders, nfiles, nfuncs = python_state_offenders()
+    nat = native_config_replay(None) if any("JAX configuration" in o for o in offenders) else None
     S.fact("frame/no-writes-to-module-level-state", not offenders and nfiles > 50, function=fn,
            what=f"none of the {nfuncs} functions in {nfiles} lerax source files (render/export excluded) declares `global` or mutates a module-level mutable container: results cannot depend on what was constructed or run earlier in the process",
-           detail=offenders[:10], replay=lambda m: dict(reproduced=bool(offenders), route="static (AST)", observed=offenders[:10]))
+           detail=offenders[:10], replay=lambda m: (nat if (nat and nat.get("reproduced")) else dict(reproduced=bool(offenders), route="static (AST)", observed=offenders[:10])))
     l = AbstractAlgorithm.learn
     S.fact("learn/no-buffer-donation", getattr(l, "donate_first", None) is False and getattr(l, "donate_rest", None) is False, function="lerax.algorithm.base_algorithm:AbstractAlgorithm.learn",
            what="learn is jitted without donating its arguments: the policy (and environment) passed in are left untouched")
